@@ -325,6 +325,12 @@ func newE2ERig(network string) (*e2eRig, error) {
 	r := &e2eRig{network: network, st: &e2eStore{obs: map[string]e2eObs{}}}
 	r.srv = server.NewServer()
 	r.srv.RegisterName("E2E", &E2E{st: r.st}, "")
+	// the same handlers registered as plain functions (their argument and reply objects are pooled along another path)
+	ef := &E2E{st: r.st}
+	r.srv.RegisterFunctionName("E2EF", "J", ef.J, "")
+	r.srv.RegisterFunctionName("E2EF", "P", ef.P, "")
+	r.srv.RegisterFunctionName("E2EF", "T", ef.T, "")
+	r.srv.RegisterFunctionName("E2EF", "B", ef.B, "")
 	switch network {
 	case "mem":
 		r.ln = newPipeListener()
@@ -778,10 +784,14 @@ func e2eDoConc(rig *e2eRig, cl *client.Client, k e2eCall, mu *sync.Mutex) (strin
 	wantEnc, _ := codec.Encode(want)
 	var fails []string
 	c2, cancel := context.WithTimeout(ctx, 30*time.Second)
-	err := cl.Call(c2, "E2E", e2eMethod[k.ser], args, reply)
+	svc := "E2E"
+	if k.size%2 == 1 {
+		svc = "E2EF" // every other concurrent call goes to the function-style registration
+	}
+	err := cl.Call(c2, svc, e2eMethod[k.ser], args, reply)
 	cancel()
 	if err != nil {
-		fails = append(fails, fmt.Sprintf("call-failed: %s ser=%d ct=%d size=%d (concurrent): %v", rig.network, k.ser, k.ct, k.size, err))
+		fails = append(fails, fmt.Sprintf("call-failed: %s %s ser=%d ct=%d size=%d (concurrent): %v", rig.network, svc, k.ser, k.ct, k.size, err))
 	}
 	hview := "hview=none"
 	if obs, ok := rig.st.get(cid, 3*time.Second); ok {
@@ -805,7 +815,7 @@ func e2eDoConc(rig *e2eRig, cl *client.Client, k e2eCall, mu *sync.Mutex) (strin
 		fails = append(fails, fmt.Sprintf("resmeta-differ: %s ser=%d ct=%d (concurrent)", rig.network, k.ser, k.ct))
 	}
 	model := fmt.Sprintf("e2e %d %d 0 0 %s %s %s %s - 0 %s %s -", k.ser, k.ct,
-		hex.EncodeToString([]byte("E2E")), hex.EncodeToString([]byte(e2eMethod[k.ser])), mapTok(meta),
+		hex.EncodeToString([]byte(svc)), hex.EncodeToString([]byte(e2eMethod[k.ser])), mapTok(meta),
 		hexOrDash(argsEnc), hexOrDash(wantEnc), mapTok(resMetaFor(meta)))
 	return model, impl, fails
 }
